@@ -163,6 +163,11 @@ pub fn compare_traces(pred: &Pred, act: &Actual, top_ok_and_events_agree: Option
                             }
                             what = "the registry must accept this request and run the entry point of the stored code".into();
                         }
+                        Why::DuplicateAddress if ak == Some(Kind::Instantiate) => {
+                            owners.push("C11");
+                            owners.push("C08");
+                            what = "the derived address already belongs to a contract: the request must be rejected, otherwise two contracts share one key space".into();
+                        }
                         Why::RegistryReject if matches!(ak, Some(Kind::Instantiate) | Some(Kind::Migrate)) => {
                             owners.push("C11");
                             what = "the registry must reject this request (unknown code id, duplicate address, invalid salt, empty label or no such contract)".into();
@@ -219,6 +224,10 @@ pub fn compare_traces(pred: &Pred, act: &Actual, top_ok_and_events_agree: Option
                     &["C02"]
                 } else if after_failure {
                     &["C02", "C05"]
+                } else if field == "own balance at entry" && callee_entry {
+                    // the balance is observed through a bank query at entry: "funds have already been
+                    // moved" (C05) and "a query observes the funds it was just sent" (C10) alike
+                    &["C05", "C10"]
                 } else {
                     &["C05"]
                 },
